@@ -80,7 +80,7 @@ int main(int argc, char** argv) {
   const unsigned scale = H.thorough ? 3 : 1;
 
   for (long k = H.firstCase(); k < H.endCase(); ++k) {
-    Rng rng(H.caseSeed(k));
+    Rng rng(mix(H.caseSeed(k), (uint64_t)H.paramInt("salt", 0))); // salt: other random inputs for the same plan
     int fam = (int)(k % 4);
     static const char* FAM[] = {"BALANCED_MASTERS", "BALANCED_MASTERS+scalefactor", "BALANCED_EDGES_OF_MASTERS",
                                 "BALANCED_MASTERS_AND_EDGES"};
